@@ -196,3 +196,11 @@ def build(reg, src):
         return rows
     frames_popped_on_every_exit.__name__ = 'frames-popped-on-every-exit'
     reg.extra_checks.append(frames_popped_on_every_exit)
+
+    # ... and the per-node memo of the compile decision must not make a later evaluation depend on what the variables held EARLIER:
+    # compiled code is only called on the kinds of value it was admitted for (C05's structural obligation, also a C04 matter)
+    def compiled_memo_is_history_free(ctx):
+        from contracts import c05
+        return c05.compiled_calls_guarded(ctx)
+    compiled_memo_is_history_free.__name__ = 'compiled-memo-is-history-free'
+    reg.extra_checks.append(compiled_memo_is_history_free)
